@@ -22,6 +22,39 @@ func Run(c *common.Ctx) error {
 	}
 	cf := c.Cases("cases_c02", hist.CoqHeader, hist.CoqType, "mismatches")
 	cf.Shard = 3
+	// fixed history first: the shapes that need something specific
+	{
+		cfg := hist.Config{PageSize: 512, CommitFaults: true, Clients: true}
+		h, err := hist.New(c, c.Rng.Fork(), cfg)
+		if err != nil {
+			if h != nil {
+				h.Close()
+			}
+			return fmt.Errorf("history setup: %w", err)
+		}
+		for _, st := range []hist.Step{
+			{Op: "rtx", Writes: map[uint32]uint64{1: 1, 2: 2, 3: 3, 4: 4}, NewSize: 4},
+			{Op: "rtx", Writes: map[uint32]uint64{1: 11, 3: 13}, NewSize: 4, ForeignClose: true}, // another connection closes its handle mid-transaction
+			{Op: "rtx", Writes: map[uint32]uint64{2: 22}, NewSize: 4, JMode: 1},
+			{Op: "rtx", Writes: map[uint32]uint64{1: 31, 3: 30}, NewSize: 4}, // page 3 gets bytes 18..19 = 2,2 (content 30)
+			{Op: "rtx", Writes: map[uint32]uint64{2: 42, 4: 44}, NewSize: 4, JMode: 2},
+			{Op: "rtx", Writes: map[uint32]uint64{1: 51, 4: 56}, NewSize: 4, JMode: 2}, // page 4 gets 1,1 (content 56)
+			{Op: "rtx", Writes: map[uint32]uint64{3: 63}, NewSize: 4},
+			{Op: "rtx", Writes: map[uint32]uint64{2: 72, 4: 74}, NewSize: 4, Die: true}, // the writer dies; LiteFS rolls back
+			{Op: "rtx", Writes: map[uint32]uint64{3: 83}, NewSize: 4},
+			{Op: "rtx", Writes: map[uint32]uint64{2: 92, 3: 93, 4: 94}, NewSize: 4, JSplit: 2, JMode: 1}, // two journal segments
+			{Op: "rtx", Writes: map[uint32]uint64{2: 102}, NewSize: 3, FailCommit: true},                 // commit refused, SQLite rolls back
+			{Op: "rtx", Writes: map[uint32]uint64{1: 111}, NewSize: 4},
+		} {
+			if ob := h.Exec(st); ob.Panic != "" || len(ob.Exits) > 0 {
+				break
+			}
+		}
+		h.CheckCrash(c, "C02")
+		h.CheckCapture(c, "C02", map[string]bool{"rtx": true, "lockonly": true})
+		cf.Add(h.CoqCase(), map[string]any{"kind": "history", "page_size": cfg.PageSize, "scripted": "client behaviours", "steps": h.Steps})
+		h.Close()
+	}
 	nHist := c.Pick(18, 160)
 	for i := 0; i < nHist; i++ {
 		cfg := cfgs[i%len(cfgs)]
